@@ -2,7 +2,7 @@
 # tools/seed_eval.sh <dir-with-patch.diff+demo.py+notes.md> <Cxx> <seed-name> [tier]
 # verifies a seeded change in a scratch copy: demo passes on clean tree, fails with the patch, runs our check against
 # the patched copy, then (serialised by a lock, suite uses fixed ports) the repository's test suite on the patched copy.
-src="$(realpath "$1")"; id="$2"; name="$3"; tier="${4:-quick}"
+src="$(realpath "$1")"; id="$2"; name="$3"; tier="${4:-quick}"; prop="${5:-$2}"
 here="$(cd "$(dirname "$0")/.." && pwd)"
 out="$here/seeded/$name"; mkdir -p "$out"
 cp "$src/patch.diff" "$out/patch.diff"; cp "$src"/demo*.py "$out/" 2>/dev/null; cp "$src"/test_demo.py "$out/" 2>/dev/null; cp "$src/notes.md" "$out/notes.md" 2>/dev/null
@@ -27,11 +27,11 @@ if [ -z "$SEED_NO_SUITE" ]; then
   suite=$("$here/tools/baseline_cmp.py" "$copy/suite.xml" 2>&1 | head -1)
   "$here/tools/baseline_cmp.py" "$copy/suite.xml" 2>&1 | grep MISSING | head -10 > "$out/suite_missing.txt"
 fi
-/venv/bin/python - "$out" "$id" "$name" "$clean_rc" "$patched_rc" "$check_rc" "$suite" "$tier" <<'PY'
+/venv/bin/python - "$out" "$id" "$name" "$clean_rc" "$patched_rc" "$check_rc" "$suite" "$tier" "$prop" <<'PY'
 import json, sys, os
-out, pid, name, clean, patched, check, suite, tier = sys.argv[1:9]
+out, pid, name, clean, patched, check, suite, tier, prop = sys.argv[1:10]
 notes = open(os.path.join(out, 'notes.md')).read() if os.path.exists(os.path.join(out, 'notes.md')) else ''
-meta = {'property': pid, 'name': name, 'demo_exit_on_clean_tree': int(clean), 'demo_exit_with_patch': int(patched),
+meta = {'property': prop, 'checked_with': pid, 'name': name, 'demo_exit_on_clean_tree': int(clean), 'demo_exit_with_patch': int(patched),
         'our_check': './check %s --tier %s' % (pid, tier), 'our_check_exit_with_patch': int(check), 'caught': int(check) == 1,
         'repository_suite_with_patch': suite, 'needs_to_manifest': notes[:1500],
         'ran': 'tools/seed_eval.sh (scratch copy of /repo at HEAD + patch; demo on clean and patched copy; our check via VERIF_REPO; full pytest suite compared with BASELINE stable_pass)'}
